@@ -4,6 +4,8 @@
   token formats (mirrored by harness/kinds_av1.go)
     hdr     <type> (none | some <t> <s> <r>) <hasSize> <reserved1>
     obu     hdr <payload bytes>
+    obuW    obu <width>            (c13.rt: width of the obu_size field, 0 = minimal)
+    c09.av1packet input: <reuse> <n> (<obytes> <always>)*   (always: ReadFrames also after a refusal)
     view    <z> <y> <w> <n> <list bytes>
 -/
 import Driver.Common
@@ -30,14 +32,17 @@ def rdView : Rd Pred.C13.PktView := do
 
 structure RtIn where
   mtu : UInt16
-  obus : List Obu
+  obus : List (Obu × Nat)      -- each OBU with the width of its `obu_size` field (0 = minimal)
   stream : Bytes
 
-/-- `<mtu> <list obu> <stream>`; the stream the harness built with its own serialiser must be the
-    specification's serialisation of the OBU list (otherwise the case is a harness error) -/
+/-- `<mtu> <list (obu <width>)> <stream>`; the stream the harness built with its own serialiser must
+    be the specification's serialisation of the OBU list with size fields of those widths (otherwise
+    the case is a harness error).  The model is run on the stream: it sees the raw bytes. -/
 def rdRtIn : Rd RtIn := do
-  let m ← Rd.u16; let os ← Rd.list rdObu; let s ← Rd.bytes
-  if serialise os == s then pure { mtu := m, obus := os, stream := s } else Rd.fail
+  let m ← Rd.u16
+  let os ← Rd.list (do let o ← rdObu; let w ← Rd.nat; pure (o, w))
+  let s ← Rd.bytes
+  if serialiseW os == s then pure { mtu := m, obus := os, stream := s } else Rd.fail
 
 def rdRtObs : Rd Pred.C13.RtObs := do
   let t ← Rd.tok
@@ -95,10 +100,25 @@ theorem rt_imp_rtRelaxed (mtu : Nat) (obus : List Obu) (o : Pred.C13.RtObs) :
   · exact Or.inl h
   · exact Or.inr ⟨⟨⟨⟨rulesOK_mono (le_mtuOrLongest _ _) _ hr, hd⟩, Or.inl hf⟩, hl⟩, hk⟩
 
+/-- with size fields of chosen widths: the same claim about the same OBUs whenever the widths are ones
+    the AV1 specification allows (minimal, or 1 … 8 bytes that hold the value); never a panic -/
+def rtRelaxedW (mtu : Nat) (ows : List (Obu × Nat)) (o : Pred.C13.RtObs) : Bool :=
+  !o.panicked && (!widthsOK ows || rtRelaxed mtu (ows.map (·.1)) o)
+
+theorem rt_imp_rtRelaxedW (mtu : Nat) (ows : List (Obu × Nat)) (o : Pred.C13.RtObs) :
+    Pred.C13.rt mtu (ows.map (·.1)) o = true → rtRelaxedW mtu ows o = true := by
+  intro h
+  have h1 := rt_imp_rtRelaxed mtu _ o h
+  have h2 : (!o.panicked) = true := by
+    unfold rtRelaxed at h1
+    simp only [Bool.and_eq_true] at h1
+    exact h1.1
+  simp [rtRelaxedW, h1, h2]
+
 def rt : Handler :=
   mkHandler rdRtIn rdRtObs (fun i => rtObs i.mtu i.stream)
-    (fun i o => rtRelaxed i.mtu.toNat i.obus o)
-    (fun i => Pred.C13.rtWF i.mtu.toNat i.obus)
+    (fun i o => rtRelaxedW i.mtu.toNat i.obus o)
+    (fun i => Pred.C13.rtWF i.mtu.toNat (i.obus.map (·.1)) && widthsOK i.obus)
 
 /-! ### c13.leb, c13.lebrd -/
 
@@ -205,7 +225,11 @@ theorem pktHistOkR_of_histOk (os : List Pred.C09Av1.PktCall) :
   exact ⟨this.1.1, this.1.2⟩
 
 def c09pkt : Handler :=
-  mkHandler (do let r ← Rd.bool; let ps ← Rd.list Rd.obytes; pure (r, ps)) (Rd.list rdPktCall)
+  -- input: `<reuse> <n> (<obytes> <always>)*` — `always`: ReadFrames is called after this Unmarshal
+  -- even if it refused the payload (otherwise only after a successful one)
+  mkHandler (do let r ← Rd.bool
+                let ps ← Rd.list (do let p ← Rd.obytes; let a ← Rd.bool; pure (p, a))
+                pure (r, ps)) (Rd.list rdPktCall)
     (fun (r, ps) => pktCallsOf r {} [] ps)
     (fun _ os => pktHistOkR os)
 
